@@ -11,6 +11,7 @@ int verif_err_count, verif_warn_count, verif_last_err, verif_thrown;
 namespace UTAP {
 verif_node verif_nodes[VERIF_NNODES];
 verif_sym verif_syms[VERIF_NSYM];
+type_t verif_tpool[VERIF_NSID];
 
 struct CompileTimeComputableValues
 {
@@ -65,9 +66,9 @@ using namespace Constants;
 static type_t mk_type(int k, unsigned w) { type_t t; t.base = (kind_t)k; t.wrap = w; return t; }
 static void type_nondet_deep(type_t& t)
 {
-    int a, b, n, l0, l1; bool c, m;
-    __CPROVER_assume(n >= 0 && n <= 2);
-    t.range.first.id = a; t.range.second.id = b; t.nrec = n; t.lab0 = l0; t.lab1 = l1; t.konst = c; t.mut = m;
+    type_t d = type_t::verif_any_type();
+    kind_t k = t.base; unsigned w = t.wrap;
+    t = d; t.base = k; t.wrap = w;
 }
 
 #define PREDS(t, P)                                                \
@@ -83,6 +84,7 @@ extern "C" void w_c10_step(int op, int k0, unsigned w0, int k1, unsigned w1, int
                            int* c0p, int* c1p, int* ret, int* nerr, int* rp, int* rkind, unsigned* rwrap)
 {
     verif_err_count = 0;
+    verif_tpool_havoc();
     verif_nodes[1].kind = IDENTIFIER; verif_nodes[1].nsub = 0; verif_nodes[1].sym = 0;
     verif_nodes[1].type = mk_type(k0, w0); type_nondet_deep(verif_nodes[1].type);
     verif_nodes[2].kind = IDENTIFIER; verif_nodes[2].nsub = 0; verif_nodes[2].sym = 1;
